@@ -7,7 +7,7 @@ third-party crates are recorded as `third_party_reports` and do not fail the che
 """
 import os, re, subprocess, time
 
-SAN = "/verif/harness/san"
+SAN = os.path.join(os.path.dirname(os.path.dirname(os.path.abspath(__file__))), "harness", "san")
 TARGET = "x86_64-unknown-linux-gnu"
 
 # property -> [(tool, workload, size)]
